@@ -88,6 +88,11 @@ CLAIMED = {
    note="Trusted: Coq kernel, extraction, harness, os.lstat/os.stat as the records; uucore::mode's symbolic parser exercised not modelled; block/char devices not created.",
    technique="Coq proof (finite case analysis over an OS oracle; bit-level lemmas) + differential correspondence",
    design="5 C13"),
+ "C17": dict(
+   text="Coq theorem: a derivative-based matcher decides exactly the inductively defined language of a pattern (whole string, every alternative), for all patterns and strings; -regextype is positional (nearest preceding one, emacs by default). The repaired implementation (pattern matched as (P)$ with a full-length test) is compared on every run with that verified oracle: random pattern ASTs with alternation, repetition, intervals and brackets printed in each supported syntax, on a tree of paths over the same alphabet, with -iregex, and -regextype placed before, between and inside parentheses.",
+   note="Partial by construction: Oniguruma is not modelled; the Coq side contributes the verified oracle and the scoping rule. Trusted: Coq kernel, extraction, harness, the per-syntax printers in props/c17.py.",
+   technique="Coq proof (Brzozowski derivatives = denotational language) used as a verified oracle + differential correspondence",
+   design="5 C17"),
 }
 ALL = ["C%02d" % i for i in range(1, 21)]
 def main():
